@@ -199,6 +199,32 @@ func hasAll(have, want []string) bool {
 	return true
 }
 
+var (
+	openAll map[string][]Finding
+	openMu  sync.Mutex
+)
+
+// MatchesOpenFinding: the failure carries the signature of an open known finding of the property (for fuzz targets, which do not
+// go through a recorder).
+func MatchesOpenFinding(property string, o Outcome) bool {
+	openMu.Lock()
+	defer openMu.Unlock()
+	if openAll == nil {
+		openAll = map[string][]Finding{}
+	}
+	ff, ok := openAll[property]
+	if !ok {
+		ff = loadFindings(property)
+		openAll[property] = ff
+	}
+	for _, f := range ff {
+		if f.Status == "open" && len(f.TagsAll) > 0 && hasAll(o.Tags, f.TagsAll) {
+			return true
+		}
+	}
+	return false
+}
+
 // matchOpen returns the open finding whose signature the failure carries.
 func (r *recorder) matchOpen(o Outcome) *Finding {
 	for i := range r.findings {
